@@ -14,7 +14,7 @@ package main
 import (
 	"fmt"
 	"os"
-	"runtime/pprof"
+	"sort"
 	"strings"
 	"sync"
 
@@ -127,6 +127,11 @@ func streamLeaves(n int) []Cons {
 }
 
 // consumersFor lists every consumer for digest size n.
+//
+//	mode "all":    every consumer, CloneStream with all 36 unordered pairs
+//	mode "main":   every consumer, CloneStream with the 9 pairs {ToByteSlice(n+1)} x 8 leaves + Discard||Discard
+//	mode "stream": only CloneStream, all 36 unordered pairs
+//	mode "proto":  only ToProto(n-1|n|n+1)
 func consumersFor(n int, mode string) []Cons {
 	var out []Cons
 	if mode == "proto" {
@@ -135,74 +140,119 @@ func consumersFor(n int, mode string) []Cons {
 		}
 		return out
 	}
-	for _, l := range dedupInts(n-1, n, n+1) {
-		out = append(out, Cons{Kind: "ToByteSlice", A: l})
-	}
-	for _, bs := range []int{1, 2, 64} {
-		out = append(out, Cons{Kind: "ToReader", A: bs, N: -1})
-	}
-	for _, k := range []int{0, 1, 2} {
-		out = append(out, Cons{Kind: "ToReader", A: 1, N: k})
-	}
-	for off := -1; off <= n+1; off++ {
-		for _, max := range dedupInts(1, 2, n+1) {
-			out = append(out, Cons{Kind: "ToChunkReader", A: off, B: max, N: -1})
+	if mode != "stream" {
+		for _, l := range dedupInts(n-1, n, n+1) {
+			out = append(out, Cons{Kind: "ToByteSlice", A: l})
 		}
-	}
-	for _, k := range []int{0, 1} {
-		out = append(out, Cons{Kind: "ToChunkReader", A: 0, B: 1, N: k})
-	}
-	for off := -1; off <= n+1; off++ {
-		for _, l := range dedupInts(0, 1, n) {
-			out = append(out, Cons{Kind: "ReadAt", A: off, B: l})
+		for _, bs := range []int{1, 2, 64} {
+			out = append(out, Cons{Kind: "ToReader", A: bs, N: -1})
 		}
-	}
-	out = append(out, Cons{Kind: "IntoWriter"})
-	for _, l := range dedupInts(n-1, n+1) {
-		out = append(out, Cons{Kind: "ToProto", A: l})
-	}
-	// CloneCopy: limit n+1 with every ordered pair of three leaves; limit
-	// n-1 with ToByteSlice on both.
-	cc := []Cons{{Kind: "ToByteSlice", A: n + 1}, {Kind: "ToChunkReader", A: 1, B: 1, N: -1}, {Kind: "Discard"}}
-	for i := range cc {
-		for j := range cc {
-			out = append(out, Cons{Kind: "CloneCopy", A: n + 1, C1: &cc[i], C2: &cc[j]})
+		for _, k := range []int{0, 1, 2} {
+			out = append(out, Cons{Kind: "ToReader", A: 1, N: k})
 		}
+		for off := -1; off <= n+1; off++ {
+			for _, max := range dedupInts(1, 2, n+1) {
+				out = append(out, Cons{Kind: "ToChunkReader", A: off, B: max, N: -1})
+			}
+		}
+		for _, k := range []int{0, 1} {
+			out = append(out, Cons{Kind: "ToChunkReader", A: 0, B: 1, N: k})
+		}
+		for off := -1; off <= n+1; off++ {
+			for _, l := range dedupInts(0, 1, n) {
+				out = append(out, Cons{Kind: "ReadAt", A: off, B: l})
+			}
+		}
+		out = append(out, Cons{Kind: "IntoWriter"})
+		for _, l := range dedupInts(n-1, n+1) {
+			out = append(out, Cons{Kind: "ToProto", A: l})
+		}
+		// CloneCopy: limit n+1 with every ordered pair of three leaves;
+		// limit n-1 with ToByteSlice on both.
+		cc := []Cons{{Kind: "ToByteSlice", A: n + 1}, {Kind: "ToChunkReader", A: 1, B: 1, N: -1}, {Kind: "Discard"}}
+		for i := range cc {
+			for j := range cc {
+				out = append(out, Cons{Kind: "CloneCopy", A: n + 1, C1: &cc[i], C2: &cc[j]})
+			}
+		}
+		out = append(out, Cons{Kind: "CloneCopy", A: n - 1, C1: &cc[0], C2: &cc[0]})
+		out = append(out, Cons{Kind: "Discard"})
 	}
-	out = append(out, Cons{Kind: "CloneCopy", A: n - 1, C1: &cc[0], C2: &cc[0]})
 	// CloneStream: both halves are the same object, so unordered pairs.
 	sl := streamLeaves(n)
 	for i := range sl {
-		if os.Getenv("C09_NOSTREAM") != "" {
-			break
-		}
 		for j := i; j < len(sl); j++ {
-			if mode == "reduced" && i != 0 && !(i == j && sl[i].Kind == "Discard") {
+			if mode == "main" && i != 0 && !(i == j && sl[i].Kind == "Discard") {
 				continue
 			}
 			out = append(out, Cons{Kind: "CloneStream", C1: &sl[i], C2: &sl[j]})
 		}
 	}
-	out = append(out, Cons{Kind: "Discard"})
+	for k := range out {
+		if c := &out[k]; c.C1 != nil {
+			c.key = c.Kind + "/" + c.C1.Kind + "+" + c.C2.Kind
+		}
+	}
 	return out
+}
+
+const consTextBase = "ToByteSlice(n-1|n|n+1); ToReader with Read buffers 1|2|64 until EOF/error plus 2 further Reads, then Close; ToReader buffer 1 closed after 0|1|2 Reads; ToChunkReader(off,max) for off in [-1,n+1] x max in {1,2,n+1} until EOF/error plus 2 further Reads, then Close; ToChunkReader(0,1) closed after 0|1 Reads; ReadAt(off in [-1,n+1], len in {0,1,n}); IntoWriter; ToProto(n-1|n+1); CloneCopy(n+1) then each ordered pair of {ToByteSlice(n+1), ToChunkReader(1,1), Discard}; CloneCopy(n-1) then ToByteSlice twice; Discard"
+const streamLeavesText = "L = {ToByteSlice(n+1), ToReader(buf 1), ToChunkReader(0,1), ToChunkReader(1,2), ReadAt(0,len n), IntoWriter, ToReader closed after 1 Read, Discard}"
+
+var consText = map[string]string{
+	"all":    "consumers for digest size n: " + consTextBase + "; CloneStream then every unordered pair (36) of " + streamLeavesText + " in two goroutines",
+	"main":   "consumers for digest size n: " + consTextBase + "; CloneStream then ToByteSlice(n+1) || each of " + streamLeavesText + ", and Discard || Discard (9 pairs, two goroutines; all 36 pairs are in sub-check clonestream)",
+	"stream": "consumers for digest size n: CloneStream then every unordered pair (36) of " + streamLeavesText + ", the two halves consumed in two goroutines",
+	"proto":  "consumers for digest size n: ToProto(google.protobuf.Int64Value, limit n-1|n|n+1)",
 }
 
 // ---- driver --------------------------------------------------------------
 
+// lenCfg says what is enumerated for base contents of one length.
+type lenCfg struct {
+	fns      []string
+	trailing []string
+}
+
 // plan describes one sub-check.
 type plan struct {
 	name      string
+	what      string
 	alphabet  string
 	ctors     []string
 	finals    []string
-	consMode  string // full | reduced | proto
+	consMode  string
 	maxPieces int
-	// per base-content length: which functions and trailing strings.
-	fnsFor      func(l int) []string
-	trailingFor func(l int) []string
-	minLen      int
-	maxLen      int
-	space       string
+	perLen    []lenCfg // index = base content length
+}
+
+func (p plan) space() string {
+	var b strings.Builder
+	b.WriteString(p.what)
+	fmt.Fprintf(&b, " Base contents c: all strings over the alphabet %q of length 0..%d. ", p.alphabet, len(p.perLen)-1)
+	for l := 0; l < len(p.perLen); {
+		m := l
+		for m+1 < len(p.perLen) && strings.Join(p.perLen[m+1].fns, ",") == strings.Join(p.perLen[l].fns, ",") && strings.Join(p.perLen[m+1].trailing, ",") == strings.Join(p.perLen[l].trailing, ",") {
+			m++
+		}
+		fmt.Fprintf(&b, "Length %d..%d: digest functions {%s}, trailing strings %q. ", l, m, strings.Join(p.perLen[l].fns, ","), p.perLen[l].trailing)
+		l = m + 1
+	}
+	b.WriteString("Digests per (c, function): true; size-1 (if size>0); size+1; first hash nibble changed; last hash nibble changed; hash of another function with the same hash length under this function's name (SHA1<->GITSHA1, SHA256<->BLAKE3, SHA256TREE<-BLAKE3). ")
+	b.WriteString("Delivered data per c: c; every proper prefix of c (source shorter than the digest says); c with its last byte flipped; c followed by each trailing string. ")
+	for _, ct := range p.ctors {
+		switch ct {
+		case "slice":
+			b.WriteString("slice: the delivered data is the byte slice. ")
+		case "reader":
+			fmt.Fprintf(&b, "reader: the delivered data split in every way into <=%d consecutive pieces, empty pieces allowed anywhere (an empty piece is a (0,nil) Read; for empty data also a source with no piece at all); a Read never crosses a piece boundary; source endings %v (EOF=io.EOF, EIO=UNAVAILABLE status error, EUNEXP=io.ErrUnexpectedEOF; hence an error after every prefix), returned by a separate Read or together with the last piece (n>0 and the ending at once). ", p.maxPieces, p.finals)
+		case "chunk":
+			fmt.Fprintf(&b, "chunk: the delivered data split in every way into <=%d chunks, empty chunks allowed anywhere (for empty data also no chunk at all); endings %v. ", p.maxPieces, p.finals)
+		}
+	}
+	b.WriteString("Source in {UserProvided, BackendProvided(recording callback)}. ")
+	b.WriteString(consText[p.consMode])
+	return b.String()
 }
 
 type item struct {
@@ -214,6 +264,11 @@ type acc struct {
 	evals, nontrivial int64
 	outcomes          map[outcome]struct{}
 	classes           map[classKey]int64
+	byLen             map[int]int64
+}
+
+func newAcc() acc {
+	return acc{outcomes: map[outcome]struct{}{}, classes: map[classKey]int64{}, byLen: map[int]int64{}}
 }
 
 type classKey struct {
@@ -229,33 +284,32 @@ func (k classKey) String() string {
 }
 
 func runPlan(r *ev.Run, p plan) {
-	sub := r.NewSub(p.name, "venum", p.space)
+	countOnly := os.Getenv("C09_COUNT") != ""
+	sub := r.NewSub(p.name, "venum", p.space())
 	done := sub.Timer()
 	defer done()
 	var items []item
-	bases := allStrings(p.alphabet, p.minLen, p.maxLen)
+	maxLen := len(p.perLen) - 1
+	bases := allStrings(p.alphabet, 0, maxLen)
 	// Longest first: better load balance.
 	for i := len(bases) - 1; i >= 0; i-- {
-		for _, f := range p.fnsFor(len(bases[i])) {
+		for _, f := range p.perLen[len(bases[i])].fns {
 			items = append(items, item{bases[i], f})
 		}
 	}
 	var mu sync.Mutex
-	total := acc{outcomes: map[outcome]struct{}{}, classes: map[classKey]int64{}}
+	total := newAcc()
 	samples := make([]any, len(items))
 	consCache := map[int][]Cons{}
-	for n := 0; n <= p.maxLen+1; n++ {
+	for n := 0; n <= maxLen+1; n++ {
 		consCache[n] = consumersFor(n, p.consMode)
 	}
 	par.For(len(items), func(i int) {
 		it := items[i]
-		local := acc{outcomes: map[outcome]struct{}{}, classes: map[classKey]int64{}}
+		local := newAcc()
 		f := fnByName(it.fn)
-		dels := delivered(it.base, p.alphabet, p.trailingFor(len(it.base)))
+		dels := delivered(it.base, p.alphabet, p.perLen[len(it.base)].trailing)
 		for _, dg := range digestsFor(f, it.base) {
-			if dg.Size < 0 {
-				continue
-			}
 			cons := consCache[int(dg.Size)]
 			for _, s := range dels {
 				for _, ctor := range p.ctors {
@@ -272,14 +326,15 @@ func runPlan(r *ev.Run, p plan) {
 					case "chunk":
 						scripts = scriptsFor(s, p.maxPieces)
 					}
-					if ctor == "slice" && p.finals[0] != "EOF" {
-						continue
-					}
 					for _, chunks := range scripts {
 						for _, fin := range finals {
 							for _, ew := range eofWith {
 								if ew && len(chunks) == 0 {
-									continue // nothing to attach the end to
+									continue // nothing to attach the ending to
+								}
+								if countOnly {
+									local.evals += int64(2 * len(cons))
+									continue
 								}
 								c := Case{Base: it.base, Digest: dg, Ctor: ctor, Chunks: chunks, Final: fin, EOFWithIt: ew}
 								t := mkTruth(&c)
@@ -309,6 +364,7 @@ func runPlan(r *ev.Run, p plan) {
 				}
 			}
 		}
+		local.byLen[len(it.base)] = local.evals
 		mu.Lock()
 		total.evals += local.evals
 		total.nontrivial += local.nontrivial
@@ -318,6 +374,9 @@ func runPlan(r *ev.Run, p plan) {
 		for k, v := range local.classes {
 			total.classes[k] += v
 		}
+		for k, v := range local.byLen {
+			total.byLen[k] += v
+		}
 		mu.Unlock()
 	})
 	sub.Evaluations = total.evals
@@ -325,13 +384,26 @@ func runPlan(r *ev.Run, p plan) {
 	sub.States, sub.Transitions = total.evals, total.evals
 	sub.Validated = total.evals
 	sub.Outcomes = int64(len(total.outcomes))
-	sub.Exhaustive = true
-	sub.BoundCompleted = fmt.Sprintf("base content length %d..%d, <=%d pieces", p.minLen, p.maxLen, p.maxPieces)
+	sub.Exhaustive = !countOnly
+	sub.BoundCompleted = fmt.Sprintf("base content length 0..%d, <=%d pieces", maxLen, p.maxPieces)
 	extra := map[string]any{}
 	for k, v := range total.classes {
 		extra["first_leaf_result "+k.String()] = v
 	}
+	var lens []int
+	for l := range total.byLen {
+		lens = append(lens, l)
+	}
+	sort.Ints(lens)
+	for _, l := range lens {
+		extra[fmt.Sprintf("cases with base content length %d", l)] = total.byLen[l]
+	}
 	sub.Extra = extra
+	if countOnly {
+		sub.CapsHit = append(sub.CapsHit, "C09_COUNT set: cases counted, not executed")
+		fmt.Printf("count %s: %d cases %v\n", p.name, total.evals, total.byLen)
+		return
+	}
 	// Deterministic samples: evenly spaced over the item list.
 	var have []any
 	for _, s := range samples {
@@ -339,8 +411,8 @@ func runPlan(r *ev.Run, p plan) {
 			have = append(have, s)
 		}
 	}
-	for k := 0; k < 3 && len(have) > 0; k++ {
-		r.Sample(have[(k*len(have))/3])
+	for k := 0; k < 2 && len(have) > 0; k++ {
+		r.Sample(have[(k*len(have))/2])
 	}
 	// Sanity against vacuity: valid contents must be readable.
 	if total.classes[classKey{true, "ok"}] == 0 {
@@ -357,8 +429,6 @@ func describe(c *Case) string {
 		c.Digest.Fn, c.Digest.Hash, c.Digest.Size, c.Digest.Kind, c.Base, c.Ctor, c.Chunks, c.Final, c.EOFWithIt, src, c.Cons)
 }
 
-func constFns(names ...string) func(int) []string { return func(int) []string { return names } }
-
 func allFnNames() []string {
 	var out []string
 	for _, f := range fns {
@@ -367,22 +437,33 @@ func allFnNames() []string {
 	return out
 }
 
+func rep(n int, c lenCfg) []lenCfg {
+	out := make([]lenCfg, n)
+	for i := range out {
+		out[i] = c
+	}
+	return out
+}
+
+func cat(xs ...[]lenCfg) []lenCfg {
+	var out []lenCfg
+	for _, x := range xs {
+		out = append(out, x...)
+	}
+	return out
+}
+
 func main() {
 	r := ev.Start("C09")
-	if pf := os.Getenv("C09_CPUPROFILE"); pf != "" {
-		f, _ := os.Create(pf)
-		pprof.StartCPUProfile(f)
-		defer pprof.StopCPUProfile()
-	}
 	selfTestHashes()
 	r.Rule("venum: every (base content x derived digest x delivered byte string x split into pieces x source ending x Source kind x consumer) of the stated product is executed once against the real buffer package; non-trivial = the delivered content mismatches the digest (size or hash), or the source ends with an I/O error, or the data arrives in >= 2 pieces")
 	r.Assume("reference hashes: crypto/md5, sha1, sha256, sha512 and github.com/zeebo/blake3 called directly; GITSHA1(x)=SHA1(\"blob <len>\\0\"+x); SHA256TREE(x)=SHA256(x) for the <=8-byte contents used (single chunk); checked against published known answers at start-up")
-	r.Assume("successful completion = nil error (ToByteSlice, IntoWriter, ToProto), io.EOF reached (ToReader, ToChunkReader), (n,nil) or (n,io.EOF) (ReadAt); success demands: delivered data mismatch-free, bytes == content[off:] (ReadAt: truncated to len(p))")
-	r.Assume("an error is judged only against the causes the property names: a consumer's own invalid arguments (negative/too large offset, size limit below the digest size) admit INVALID_ARGUMENT; a source I/O error must come back with the same code and message, except that the mismatch code is also admitted when the bytes delivered before the I/O error already exceed the digest size or have the full size and a wrong hash; errors on valid content with a clean EOF (e.g. unparsable Protobuf) are not judged")
-	r.Assume("final portion withheld: while the content mismatches, a reader/slice-backed buffer hands out at most size-1-off bytes (never the byte that completes the digest size); a chunk-reader-backed buffer hands out nothing from the source chunk that reaches or exceeds the digest size onwards; for an early EOF nothing can be withheld and nothing is demanded beyond that; data handed out must be a prefix of the source data at the offset")
+	r.Assume("successful completion = nil error (ToByteSlice, IntoWriter, ToProto), io.EOF reached (ToReader, ToChunkReader), (n,nil) or (n,io.EOF) (ReadAt); success demands: the delivered content matches the digest (size and independently computed hash) and the bytes handed out == content[off:] (ReadAt: truncated to len(p); ToProto: message equal to an independent proto.Unmarshal)")
+	r.Assume("an error is judged only against the causes the property names: a consumer's own invalid arguments (negative/too large offset, size limit below the digest size) admit INVALID_ARGUMENT; a source I/O error must come back with the same code and message, except that the mismatch code is also admitted when the bytes delivered before the I/O error already exceed the digest size or have the full size and a wrong hash; errors on valid content with a clean EOF (e.g. unparsable Protobuf) are not judged; that valid content must be readable is NOT demanded (only counted, and the harness aborts if it never happens)")
+	r.Assume("final portion withheld: while the content mismatches, a reader/slice-backed buffer hands out at most size-1-off bytes (never the byte that completes the digest size); a chunk-reader-backed buffer hands out nothing from the source chunk that reaches or exceeds the digest size onwards; for an early EOF nothing can be withheld and nothing is demanded beyond that; data handed out must be a prefix of the source data at the offset; Reads issued after an error count as well (sticky error)")
 	r.Assume("extras demanded by the task, beyond the property text: at most one true and one false callback verdict per buffer; the source is closed exactly once after every consumer (including Discard and early Close)")
-	r.Assume("a source that ends with io.ErrUnexpectedEOF (what flate/zstd/http bodies return for truncated input) is a source I/O error; it is enumerated in its own sub-check")
-	r.Assume("CloneStream halves are the same object, so unordered pairs of leaf consumers are exhaustive; they run in two real goroutines; results are schedule-independent because the multiplexer runs consumers in lock-step")
+	r.Assume("a source that ends with io.ErrUnexpectedEOF (what flate/zstd readers and HTTP bodies return for truncated input; pkg/blobstore/reference_expanding_blob_access.go and grpcservers/byte_stream_server.go feed such readers into NewCASBufferFromReader) is a source I/O error; it is enumerated in its own sub-check")
+	r.Assume("CloneStream halves are the same object, so unordered pairs of leaf consumers are exhaustive; they run in two real goroutines; results are schedule-independent because the multiplexer runs consumers in lock-step; a 120 s timer is a liveness guard only (harness error, never part of the oracle)")
 
 	if r.Replay != "" {
 		rf := ev.LoadReplay(r.Replay)
@@ -401,63 +482,29 @@ func main() {
 	ab := "ab"
 	trail6 := []string{"a", "b", "aa", "ab", "ba", "bb"}
 	trail2 := []string{"a", "ab"}
-	fullLen := ev.Pick(r, 3, 4)
-	maxLen := ev.Pick(r, 4, 6)
+	full := lenCfg{allFnNames(), trail6}
 	pieces := ev.Pick(r, 3, 4)
-	reducedFns := []string{"SHA256", "GITSHA1", "MD5", "SHA256TREE"}
-	fnsFor := func(l int) []string {
-		if l <= fullLen {
-			return allFnNames()
-		}
-		return reducedFns
-	}
-	trailingFor := func(l int) []string {
-		if l <= fullLen {
-			return trail6
-		}
-		return trail2
-	}
-	digestText := "digests per (content, function): true; size-1 (if size>0); size+1; first hash nibble changed; last hash nibble changed; hash of another function with the same hash length (SHA1<->GITSHA1, SHA256<->BLAKE3, SHA256TREE<-BLAKE3)"
-	delText := func(tr string) string {
-		return "delivered data per content c: c; every proper prefix of c (early EOF); c with its last byte flipped; c followed by each of " + tr
-	}
-	consText := "consumers for digest size n: ToByteSlice(n-1|n|n+1); ToReader with Read buffers 1|2|64 until EOF/error plus 2 further Reads, then Close; ToReader buffer 1 closed after 0|1|2 Reads; ToChunkReader(off,max) for off in [-1,n+1] x max in {1,2,n+1} until EOF/error plus 2 further Reads, then Close; ToChunkReader(0,1) closed after 0|1 Reads; ReadAt(off in [-1,n+1], len in {0,1,n}); IntoWriter; ToProto(n-1|n+1); CloneCopy(n+1) then each ordered pair of {ToByteSlice(n+1), ToChunkReader(1,1), Discard}; CloneCopy(n-1) then ToByteSlice twice; CloneStream then each unordered pair of {ToByteSlice(n+1), ToReader(buf 1), ToChunkReader(0,1), ToChunkReader(1,2), ReadAt(0,len n), IntoWriter, ToReader closed after 1 Read, Discard} in two goroutines; Discard"
-	scope := fmt.Sprintf("contents: all strings over {a,b} of length 0..%d; FULL product for length <=%d: all 8 digest functions and trailing strings {a,b,aa,ab,ba,bb}; for length %d..%d the product is reduced ONLY in: digest functions {SHA256,GITSHA1,MD5,SHA256TREE} and trailing strings {a,ab}; everything else identical. ", maxLen, fullLen, fullLen+1, maxLen)
+	// What is enumerated per base content length (index = length).
+	mainCfg := ev.Pick(r,
+		cat(rep(3, full), rep(1, lenCfg{[]string{"SHA256", "GITSHA1", "SHA256TREE"}, trail2}), rep(1, lenCfg{[]string{"GITSHA1"}, trail2})),
+		cat(rep(4, full), rep(1, lenCfg{[]string{"SHA256", "GITSHA1", "MD5", "SHA256TREE"}, trail2}), rep(2, lenCfg{[]string{"GITSHA1"}, trail2})))
+	two := lenCfg{[]string{"SHA256", "GITSHA1"}, trail2}
+	streamCfg := ev.Pick(r, rep(4, lenCfg{[]string{"SHA256"}, trail2}), rep(5, two))
+	unexpCfg := ev.Pick(r, rep(3, two), rep(5, two))
+	protoCfg := rep(ev.Pick(r, 5, 6), lenCfg{[]string{"SHA256", "MD5"}, []string{"\x08", "\x01"}})
 
-	if r.Want("slice") {
-		runPlan(r, plan{name: "slice", alphabet: ab, ctors: []string{"slice"}, finals: []string{"EOF"}, consMode: "full", maxPieces: 1,
-			fnsFor: fnsFor, trailingFor: trailingFor, minLen: 0, maxLen: maxLen,
-			space: "NewCASBufferFromByteSlice. " + scope + digestText + "; " + delText("the trailing strings") + " (passed as the byte slice); Source in {UserProvided, BackendProvided(recording callback)}; " + consText})
+	plans := []plan{
+		{name: "slice", what: "NewCASBufferFromByteSlice.", alphabet: ab, ctors: []string{"slice"}, finals: []string{"EOF"}, consMode: "all", maxPieces: 1, perLen: mainCfg},
+		{name: "reader", what: "NewCASBufferFromReader.", alphabet: ab, ctors: []string{"reader"}, finals: []string{"EOF", "EIO"}, consMode: "main", maxPieces: pieces, perLen: mainCfg},
+		{name: "chunk", what: "NewCASBufferFromChunkReader.", alphabet: ab, ctors: []string{"chunk"}, finals: []string{"EOF", "EIO"}, consMode: "main", maxPieces: pieces, perLen: mainCfg},
+		{name: "clonestream", what: "CloneStream with every pair of consumers, on NewCASBufferFromReader and NewCASBufferFromChunkReader.", alphabet: ab, ctors: []string{"reader", "chunk"}, finals: []string{"EOF", "EIO"}, consMode: "stream", maxPieces: pieces, perLen: streamCfg},
+		{name: "unexpected-eof", what: "Reader and chunk-reader constructors whose source ends with io.ErrUnexpectedEOF instead of io.EOF (truncated flate/zstd/HTTP input).", alphabet: ab, ctors: []string{"reader", "chunk"}, finals: []string{"EUNEXP"}, consMode: "main", maxPieces: pieces, perLen: unexpCfg},
+		{name: "proto", what: "ToProto on all three constructors; the alphabet is chosen so that many contents are valid encodings (0x08 0x01 = field 1 varint 1) and many are not (a lone 0x08 is truncated).", alphabet: "\x08\x01", ctors: []string{"slice", "reader", "chunk"}, finals: []string{"EOF", "EIO"}, consMode: "proto", maxPieces: 2, perLen: protoCfg},
 	}
-	if r.Want("reader") {
-		runPlan(r, plan{name: "reader", alphabet: ab, ctors: []string{"reader"}, finals: []string{"EOF", "EIO"}, consMode: "full", maxPieces: pieces,
-			fnsFor: fnsFor, trailingFor: trailingFor, minLen: 0, maxLen: maxLen,
-			space: fmt.Sprintf("NewCASBufferFromReader. %s%s; %s; the delivered data is split in every way into <=%d consecutive pieces with empty pieces allowed anywhere (an empty piece is a (0,nil) Read; for empty data also a source with no piece), a Read never crosses a piece boundary; the source ends with io.EOF or with an UNAVAILABLE I/O error (so: an error after every prefix), returned either by a separate Read or together with the last piece (n>0 and the error at once); Source in {UserProvided, BackendProvided}; %s", scope, digestText, delText("the trailing strings"), pieces, consText)})
-	}
-	if r.Want("chunk") {
-		runPlan(r, plan{name: "chunk", alphabet: ab, ctors: []string{"chunk"}, finals: []string{"EOF", "EIO"}, consMode: "full", maxPieces: pieces,
-			fnsFor: fnsFor, trailingFor: trailingFor, minLen: 0, maxLen: maxLen,
-			space: fmt.Sprintf("NewCASBufferFromChunkReader. %s%s; %s; the delivered data is split in every way into <=%d chunks, empty chunks allowed anywhere (for empty data also no chunk at all); the chunk reader ends with io.EOF or an UNAVAILABLE I/O error; Source in {UserProvided, BackendProvided}; %s", scope, digestText, delText("the trailing strings"), pieces, consText)})
-	}
-	if r.Want("unexpected-eof") {
-		ml := ev.Pick(r, 3, 4)
-		runPlan(r, plan{name: "unexpected-eof", alphabet: ab, ctors: []string{"reader", "chunk"}, finals: []string{"EUNEXP"}, consMode: "full", maxPieces: pieces,
-			fnsFor: constFns("SHA256", "GITSHA1"), trailingFor: func(int) []string { return trail2 }, minLen: 0, maxLen: ml,
-			space: fmt.Sprintf("reader and chunk-reader constructors whose source ends with io.ErrUnexpectedEOF instead of io.EOF (truncated flate/zstd/HTTP input). contents: all strings over {a,b} of length 0..%d; functions {SHA256,GITSHA1}; %s; %s; all splits into <=%d pieces as in reader/chunk; error separately or together with the last piece (reader); both Source kinds; %s", ml, digestText, delText("{a,ab}"), pieces, consText)})
-	}
-	if r.Want("proto") {
-		ml := ev.Pick(r, 4, 5)
-		runPlan(r, plan{name: "proto", alphabet: "\x08\x01", ctors: []string{"slice", "reader", "chunk"}, finals: []string{"EOF", "EIO"}, consMode: "proto", maxPieces: 2,
-			fnsFor: constFns("SHA256", "MD5"), trailingFor: func(int) []string { return []string{"\x08", "\x01"} }, minLen: 0, maxLen: ml,
-			space: fmt.Sprintf("ToProto(google.protobuf.Int64Value, limit n-1|n|n+1) on all three constructors. contents: all strings over the bytes {0x08,0x01} of length 0..%d (so that many contents are valid and many are invalid encodings: 0x08 0x01 = field 1 varint 1, a lone 0x08 is truncated); functions {SHA256,MD5}; %s; delivered data as in the other sub-checks with trailing {0x08,0x01}; splits into <=2 pieces; io.EOF or I/O error; both Source kinds", ml, digestText)})
-	}
-	_ = strings.Join
-	pprof.StopCPUProfile()
-	if pf := os.Getenv("C09_MEMPROFILE"); pf != "" {
-		f, _ := os.Create(pf)
-		pprof.Lookup("allocs").WriteTo(f, 0)
-		f.Close()
+	for _, p := range plans {
+		if r.Want(p.name) {
+			runPlan(r, p)
+		}
 	}
 	r.Finish()
 }
-
